@@ -69,7 +69,8 @@ class C19(Property):
             "whole record) filled with 0-6 protoclusters (extent + core on a coarse grid with +-1 jitter, symmetric and "
             "asymmetric neighbourhoods, cores before/after/across the origin), 0-6 candidate clusters over random subsets "
             "(all four kinds), 0-3 subregions and 0-6 genes incl. origin-spanning forward/reverse and multi-exon genes; "
-            "twins: two different protoclusters with the same extent and product (other core and/or a "
+            "regions that span the origin and tile the whole record (`[s,L)+[0,s)`, by two children or "
+            "by one child doing so alone); twins: two different protoclusters with the same extent and product (other core and/or a "
             "sideloaded annotation); regions built directly (`Region(candidates, subregions)`) or by `create_candidate_clusters` + "
             "`create_regions`; plus `pack` alone on unsorted area lists; thorough/deep adds the small scope L=24, protocluster "
             "extents/cores on a 4-grid of the ring (every single and every pair exhaustively, triples sampled), each with "
@@ -129,14 +130,12 @@ class C19(Property):
             layout = "cross"
         else:
             wlen = L
-            w0 = rng.choice([0, 0, rng.randrange(L)])
+            w0 = rng.choice([0, rng.randrange(L), rng.randrange(L)])
             layout = "whole"
 
         def place(off: Tuple[int, int], strand: Any = 1) -> Dict[str, Any]:
-            n = off[1] - off[0]
-            if n == L and (w0 + off[0]) % L and rng.random() < 0.9:
-                n = L - 1       # `[s, L) + [0, s)` (no base left uncovered) is refused by the code: keep it rare
-            return ring_loc(w0 + off[0], n, L, strand)
+            # n == L away from position 0 gives `[s, L) + [0, s)`: an area tiling the record from s back to s
+            return ring_loc(w0 + off[0], off[1] - off[0], L, strand)
 
         protos = []
         for i in range(rng.choice([0, 1, 1, 2, 2, 3, 3, 4, 6])):
@@ -180,6 +179,13 @@ class C19(Property):
                 ext = (0, wlen)
             subs.append({"loc": place(ext), "label": rng.choice([f"s{i}", f"s{i}", ""]),
                          "sideloaded": rng.random() < 0.4, "tool": rng.choice(["tool", "external"])})
+        if layout == "whole" and w0 >= 2 and rng.random() < 0.5:
+            # children that together tile the record from w0 back to w0 without any of them doing so alone:
+            # the region becomes `[w0, L) + [0, w0)` — it spans the origin *and* covers the whole record
+            cut = rng.randrange(L - w0 + 1, L)          # first child runs over the origin
+            subs.append({"loc": place((0, cut)), "label": "t0", "sideloaded": False, "tool": "tool"})
+            subs.append({"loc": place((max(cut - rng.choice([0, 1, step]), L - w0 + 1), L)), "label": "t1",
+                         "sideloaded": False, "tool": "tool"})
         if not cands and not subs:
             subs.append({"loc": place(self.rand_interval(rng, 0, wlen, step)), "label": "s0"})
         genes = []
@@ -526,6 +532,9 @@ class C19(Property):
             if (inf["extend"] and (inf["n_crossing"] or inf["n_gene_crossing"])) or shared_row:
                 nontrivial = True
             tags.append("region-crosses" if inf["region_crosses"] else ("whole-record" if inf["extend"] else "plain"))
+            rparts = info["region"]["parts"]
+            if len(rparts) == 2 and rparts[1][1] == rparts[0][0]:
+                tags.append("region-crosses-and-tiles-record")
             if inf["n_crossing"]:
                 tags.append("area-crossing" + ("-split" if not inf["region_crosses"] else "-shift"))
             if inf["n_gene_crossing"]:
